@@ -60,7 +60,9 @@ Boundary == <<
   \*       embedded, as a plain named field and behind an embedded pointer
   << EV("A", << EV("E", << L("x", "int8"), L("y", "int64") >>), L("p", "int16") >>), EV("B", << L("q", "int8"), EV("E", << L("x", "int8"), L("y", "int64") >>) >>), L("z", "int8") >>,
   << EV("E", << L("x", "int16"), L("y", "int8") >>), EV("A", << L("p", "int64"), EV("E", << L("x", "int16"), L("y", "int8") >>) >>), L("z", "int32") >>,
-  << EV("E", << L("x", "int16"), L("y", "int8") >>), NS("X", "E", << L("x", "int16"), L("y", "int8") >>), EP("P", << L("q", "int8"), EV("E", << L("x", "int16"), L("y", "int8") >>) >>), L("z", "int8") >>
+  << EV("E", << L("x", "int16"), L("y", "int8") >>), NS("X", "E", << L("x", "int16"), L("y", "int8") >>), EP("P", << L("q", "int8"), EV("E", << L("x", "int16"), L("y", "int8") >>) >>), L("z", "int8") >>,
+  \* 27 interface-typed fields (their values include non-nil interfaces holding nil pointers / maps / slices / funcs)
+  << L("A", "any"), L("B", "fmt.Stringer"), L("C", "int8"), EV("E1", << L("D", "any"), L("F", "fmt.Stringer") >>) >>
 >>
 BoundarySet == {Boundary[i] : i \in 1..Len(Boundary)}
 ====
